@@ -31,6 +31,9 @@ type c14Dev struct {
 }
 
 type c14Prof struct {
+	// Auto is AutoDevicesEnabled.  For such profiles the real code does not
+	// start the removeDevice clean-up; the answers must be the same.
+	Auto     bool
 	Deleted  bool
 	Modified int // backend version of the last change
 }
@@ -178,6 +181,13 @@ func (b *c14Backend) mutate(m string) bool {
 		b.touch(d3.Owner)
 		d3.Owner = other(d3.Owner)
 		b.touch(d3.Owner)
+	case "p1-auto-devices-toggle":
+		p1 := b.Profs["p1"]
+		if p1.Deleted {
+			return false
+		}
+		p1.Auto = !p1.Auto
+		p1.Modified = b.Version
 	case "p2-delete-toggle":
 		p2 := b.Profs["p2"]
 		if !p2.Deleted {
@@ -197,7 +207,7 @@ func (b *c14Backend) mutate(m string) bool {
 	return true
 }
 
-var c14Mutations = []string{"none", "d1-linked-toggle", "d2-linked-take-x", "d1-move", "d1-remove-readd", "d1-d2-swap-dedicated", "d3-human-toggle", "d3-move", "p2-delete-toggle"}
+var c14Mutations = []string{"none", "d1-linked-toggle", "d2-linked-take-x", "d1-move", "d1-remove-readd", "d1-d2-swap-dedicated", "d3-human-toggle", "d3-move", "p2-delete-toggle", "p1-auto-devices-toggle"}
 
 func (b *c14Backend) device(id string) *agd.Device {
 	d := b.Devs[id]
@@ -225,7 +235,7 @@ func (b *c14Backend) response(since int) *StorageProfilesResponse {
 		if p.Modified <= since {
 			continue
 		}
-		prof := &agd.Profile{ID: agd.ProfileID(pid), Deleted: p.Deleted, FilteringEnabled: true, AutoDevicesEnabled: false}
+		prof := &agd.Profile{ID: agd.ProfileID(pid), Deleted: p.Deleted, FilteringEnabled: true, AutoDevicesEnabled: p.Auto}
 		for _, did := range c14DevIDs {
 			if b.Devs[did].Owner == pid {
 				prof.DeviceIDs = append(prof.DeviceIDs, agd.DeviceID(did))
@@ -564,7 +574,7 @@ func (sys *c14Sys) digest() string {
 	db := sys.db
 	var parts []string
 	for k, v := range db.profiles {
-		parts = append(parts, fmt.Sprintf("P%s:%v:%v", k, v.DeviceIDs, v.Deleted))
+		parts = append(parts, fmt.Sprintf("P%s:%v:%v:%v", k, v.DeviceIDs, v.Deleted, v.AutoDevicesEnabled))
 	}
 	for k, v := range db.devices {
 		parts = append(parts, fmt.Sprintf("D%s:%v:%v:%s", k, v.LinkedIP, v.DedicatedIPs, v.HumanIDLower))
@@ -595,7 +605,7 @@ func (sys *c14Sys) digest() string {
 		}
 		for _, id := range c14ProfIDs {
 			if p := b.Profs[id]; p != nil {
-				fmt.Fprintf(&sb, "%s:%v:%v ", id, p.Deleted, p.Modified > sys.synced.Version)
+				fmt.Fprintf(&sb, "%s:%v:%v:%v ", id, p.Deleted, p.Auto, p.Modified > sys.synced.Version)
 			}
 		}
 	}
